@@ -68,8 +68,13 @@ ODML = ["boolean", "int", "float", "string", "text", "url", "person", "datetime"
 ODML_OK = {"b": {"boolean"}, "i": {"int"}, "f": {"float"},
            "t": {"string", "text", "url", "person", "datetime", "date", "time"}}
 CREATE_HOWS = ["list", "tuple", "single", "npscalars", "dtype", "setitem", "setitem_single"]
-ASSIGN_HOWS = ["list", "tuple", "single", "npscalars", "ndarray", "ndarray_alt", "setitem", "setitem_single"]
-EXTEND_HOWS = ["list", "tuple", "single", "npscalars", "ndarray", "ndarray2d", "ndarray_alt"]
+ASSIGN_HOWS = ["list", "tuple", "single", "npscalars", "ndarray", "ndarray_alt", "ndarray_u64", "setitem", "setitem_single"]
+EXTEND_HOWS = ["list", "tuple", "single", "npscalars", "ndarray", "ndarray2d", "ndarray_alt", "ndarray_u64"]
+
+
+def u64big(d):
+    """unsigned 64-bit values no signed 64-bit integer can hold"""
+    return [2 ** 63 + (abs(int(x)) % 997) for x in d]
 CLEAR_HOWS = ["list", "tuple", "none", "delete", "setitem"]
 VIAS = ["cached", "name", "id", "index", "negindex"]
 MAX_PROPS, MAX_SECS = 6, 6
@@ -232,6 +237,8 @@ def build_arg(vals, how, alt=None):
         return np.array(d, dtype=npd[t])
     if how == "ndarray2d":
         return np.array(d, dtype=npd[t]).reshape(2, -1)
+    if how == "ndarray_u64":
+        return np.array(u64big(d), dtype=np.uint64)
     if how == "ndarray_alt":
         if t == "i":
             return np.array(d, dtype=np.int32)
@@ -260,6 +267,8 @@ def how_ok(how, vals, kind):
         if len(tags) != 1 or "t" in tags:
             return False
         return how == "ndarray" or (len(vals) % 2 == 0)
+    if how == "ndarray_u64":
+        return tags == {"i"}
     if how == "ndarray_alt":
         if len(tags) != 1:
             return False
@@ -431,6 +440,15 @@ def plan_typed(out, mp, kind, how, vals):
     cls = cand_class(mp.tag, vals, how)
     d = [dec(e) for e in vals]
     new = (mp.vals + d) if kind == "extend" else d
+    if how == "ndarray_u64":
+        # an integer array of another width whose values the property's type cannot hold: refused (values
+        # unchanged), or - if accepted - stored as given; never wrapped into other numbers
+        big = u64big(d)
+        if mp.tag == "i":
+            out.update(want="lenient", cls="uint64-beyond-int64", new=(mp.vals + big) if kind == "extend" else big)
+        else:
+            out.update(want="refuse-type", cls="uint64-into-%s" % mp.tag)
+        return out
     if how == "ndarray_alt":
         if tag_of(vals[0]) == mp.tag:
             out.update(want="lenient", cls="alt-dtype:" + mp.tag, new=new)
@@ -1082,6 +1100,8 @@ def candidate(draw, tag, how):
             st.sampled_from([x for x in "bif" if x != tag]))
         n = draw(st.integers(1, 6)) if how == "ndarray" else draw(st.sampled_from([2, 4, 6]))
         return [draw(elem(t)) for _ in range(n)], None
+    if how == "ndarray_u64":
+        return [draw(st.integers(-1000, 1000)) for _ in range(draw(st.integers(1, 4)))], None
     if how == "ndarray_alt":
         t = draw(st.sampled_from(["i", "t"]))
         n = draw(st.integers(1, 4))
